@@ -21,7 +21,7 @@ ASSUMPTIONS = ['baselines are generated from a polynomial of degree <= the fitte
                'degenerate lines are only required not to raise and to give the configured height']
 N = {'quick': 1500, 'thorough': 100000}
 CLASSES = ['inside', 'inside', 'curved', 'curved', 'partly_outside', 'outside', 'steep', 'short', 'degenerate', 'line_cropper', 'many_points', 'reversed', 'huge_page']
-REQUIRED = ['lines_on_pages_over_32767_px', 'grids_for_another_row_count', 'heights_as:uint8_array', 'fallback_crops_after_the_caller_wrote_into_an_earlier_one', 'degenerate_lines_on_tiny_pages', 'line_cropper_second_pass_lines', 'heights_as:float64_array', 'many_point_grids', 'long_lived_cropper_crops', 'crops', 'grids_checked', 'curved_grids', 'pixels_compared', 'general_path_crops', 'fast_path_crops', 'shift_compared', 'degenerate_checked', 'poly0_cubic_lines', 'line_cropper_lines']
+REQUIRED = ['crops_of_one_or_two_columns', 'outside_lines_starting_at_the_page_edge', 'lines_on_pages_over_32767_px', 'grids_for_another_row_count', 'heights_as:uint8_array', 'fallback_crops_after_the_caller_wrote_into_an_earlier_one', 'degenerate_lines_on_tiny_pages', 'line_cropper_second_pass_lines', 'heights_as:float64_array', 'many_point_grids', 'long_lived_cropper_crops', 'crops', 'grids_checked', 'curved_grids', 'pixels_compared', 'general_path_crops', 'fast_path_crops', 'shift_compared', 'degenerate_checked', 'poly0_cubic_lines', 'line_cropper_lines']
 # bounds (see DESIGN.md C10); measured maxima are reported in the evidence as observed_maxima
 B_CHORD = 0.05        # relative non-uniformity of the advance along the baseline row
 B_STEP = 0.02         # relative error of the mean advance vs (h_up+h_down)*scale/H (plus end effect 1/(W-1))
@@ -144,6 +144,27 @@ def gen(rng, i, ctx):
         case['heights'] = [float(rng.uniform(8, 30)), float(rng.uniform(3, 10))]
         case['heights_as'] = 'list'
         case['sagitta'] = 0.0
+    if cls == 'outside' and (i // len(CLASSES)) % 2 == 1:
+        # (round 7) wholly outside, but its band starts exactly at the first column right of the page / the first row below it (pages are 1000 x 1400)
+        asc_, desc_ = float(int(rng.integers(6, 40))), float(int(rng.integers(2, 15)))
+        L_ = float(int(rng.integers(60, 400)))
+        if rng.random() < 0.5:
+            y_ = float(int(rng.integers(200, 800)))
+            case['baseline'] = [[1400.0, y_], [1400.0 + L_, y_]]
+        else:
+            x_ = float(int(rng.integers(100, 900)))
+            case['baseline'] = [[x_, 1000.0 + asc_], [x_ + L_, 1000.0 + asc_]]
+        case['heights'], case['heights_as'], case['scale'], case['sagitta'] = [asc_, desc_], 'list', 1.0, 0.0
+        case['edge_outside'] = True
+    if cls == 'short' and (i // len(CLASSES)) % 2 == 1:
+        # (round 7) a short line of tall script: the crop is one or two columns wide
+        a_ = math.radians(float(rng.uniform(-10, 10)))
+        case['heights'], case['heights_as'], case['sagitta'] = [float(rng.uniform(100, 150)), float(rng.uniform(30, 60))], 'list', 0.0
+        case['H'] = int(rng.choice([16, 20]))
+        L_ = sum(case['heights']) * case['scale'] / case['H'] * float(rng.uniform(1.25, 2.9))       # one or two columns
+        x_, y_ = float(rng.integers(300, 600)), float(rng.integers(300, 600))
+        case['baseline'] = np.round(np.array([[x_, y_], [x_ + L_ * math.cos(a_), y_ + L_ * math.sin(a_)]])).tolist()
+        case['narrow'] = True
     if cls == 'reversed':
         # written from right to left (a page scanned upside down): the same band, walked from the first point to the last
         case['baseline'] = case['baseline'][::-1]
@@ -235,6 +256,10 @@ def check(case, mon, ctx):
                 mon.violation('crop-independent-of-earlier-crops', {'note': 'the fallback crop of a degenerate line is not blank after the caller wrote into an earlier fallback crop',
                               'shape': list(later.shape), 'values': np.unique(later)[:5]}, mechanism='fallback-crop-shared')
         return
+    if case.get('edge_outside'):
+        mon.count('outside_lines_starting_at_the_page_edge')
+    if case.get('narrow') and crop.shape[1] <= 2:
+        mon.count('crops_of_one_or_two_columns')
     if len(pts) >= 3:
         mon.mark_nontrivial()
     if poly == 0 and len(pts) >= 4:
